@@ -1,17 +1,6 @@
 \* quick: versioned library (semver tracks, shared implicit imports), 5 packages pre-registered, at most 3 live nodes, 4 further operations
 CONSTANTS
-  Pkgs <- L_ver_Pkgs
-  PkgKey <- L_ver_PkgKey
-  PkgImports <- L_ver_PkgImports
-  PkgExports <- L_ver_PkgExports
-  KindTab <- L_ver_Kinds
-  ImportNames <- L_ver_ImportNames
-  ExportNames <- L_ver_ExportNames
-  DefNames <- L_ver_DefNames
-  ValidNames <- L_ver_ValidNames
-  DefClass <- L_ver_DefClass
-  DefDeps <- L_ver_DefDeps
-  NameInfo <- L_ver_NameInfo
+  LibName = "ver"
   NodeIds = {1, 2, 3}
   OpKinds = {"import", "instantiate", "alias", "set_arg", "unset_arg", "export", "remove"}
   InitReg = {"p1", "p2", "p3", "p4", "p5"}
